@@ -68,3 +68,93 @@ Theorem c02_parse_classification : forall (s : bytes) (batch : bool) (raws : lis
        In e (allowed_errs r) /\ (we_code e = ParseError \/ we_code e = InvalidRequest)).
 Proof. exact flags_agree. Qed.
 Print Assumptions c02_parse_classification.
+
+(** * Live-server part: what the server does with the classified members (model: srv/SrvModel.v).
+    The classification [j_err] the server model consumes is the one characterised above
+    ([c02_parse_classification]); the lemmas are in srv/SrvC02.v. *)
+Close Scope N_scope.
+From RecordUpdate Require Import RecordUpdate.
+From JV Require SrvModel SrvLemmas SrvBasics SrvC01 SrvC02.
+Module Live.
+Import SrvModel SrvLemmas SrvBasics SrvC01 SrvC02.
+
+(* a member rejected by validation / duplicate check / unknown method never has its handler invoked, on any
+   continuation of any reachable state *)
+Theorem c02_no_handler_for_invalid : forall c s k t e tr s' oss,
+  reach c s -> nth_error (tasks s) k = Some t -> t_pre t = Some e -> run s tr = Some (s', oss) ->
+  (exists t', nth_error (tasks s') k = Some t' /\ t_pre t' = Some e /\ t_st t' = TSkip) /\
+  enter_count k s tr = 0.
+Proof. exact SrvC02.c02_no_handler_for_invalid. Qed.
+Print Assumptions c02_no_handler_for_invalid.
+
+(* every handler entry belongs to a member that passed every check *)
+Theorem c02_start_only_valid : forall c s l s' os p cn,
+  reach c s -> step s l = Some (s', os) -> In (OStart p cn) os ->
+  exists k t, nth_error (tasks s) k = Some t /\ t_params t = p /\ t_pre t = None.
+Proof. exact SrvC02.c02_start_only_valid. Qed.
+Print Assumptions c02_start_only_valid.
+
+(* unknown or reserved method: -32601 with its id for a call, silence for a notification *)
+Theorem c02_unknown_method : forall s u ids m,
+  pre_err s ids m = None -> j_method m <> [] -> assign_method s (j_method m) = None ->
+  let t := mk_task s u ids m in
+  t_pre t = Some err_not_found /\ t_st t = TSkip /\ t_hasctx t = true /\
+  (fix_id (j_id m) <> [] ->
+     response_of t = Some {| r_id := fix_id (j_id m); r_body := BErr MethodNotFound s_not_found |}) /\
+  (fix_id (j_id m) = [] -> response_of t = None).
+Proof. exact SrvC02.c02_unknown_method. Qed.
+Print Assumptions c02_unknown_method.
+
+Theorem c02_reserved_method : forall s m,
+  c_builtin s = true -> has_prefix rpc_prefix m = true -> m <> rpc_server_info -> assign_method s m = None.
+Proof. exact SrvC02.assign_method_reserved. Qed.
+Print Assumptions c02_reserved_method.
+
+(* undecodable JSON: exactly one error object, id null, code -32700; nothing is queued *)
+Theorem c02_not_json_reply : forall s f, running s = true -> f = FMsg InBad \/ f = FMsgEOF InBad ->
+  read_cs f s = (s <| rd := RIdle |>, [OSend (negb (send_fail s)) false [null_err ParseError s_invalid_value]]).
+Proof. exact SrvC02.c02_not_json. Qed.
+Print Assumptions c02_not_json_reply.
+
+(* empty array: exactly one error object, id null, code -32600 *)
+Theorem c02_empty_batch_reply : forall s f b, running s = true -> f = FMsg (InMsgs b []) \/ f = FMsgEOF (InMsgs b []) ->
+  read_cs f s = (s <| rd := RIdle |>, [OSend (negb (send_fail s)) false [null_err InvalidRequest s_empty_batch]]).
+Proof. exact SrvC02.c02_empty_batch. Qed.
+Print Assumptions c02_empty_batch_reply.
+
+(* an invalid member is answered at its position with its own code; its id is echoed, or null when it has none *)
+Theorem c02_invalid_member_response : forall s u ids m e,
+  j_err m = Some e ->
+  (fix_id (j_id m) = [] \/ (assoc (fix_id (j_id m)) (used s) = None /\ count_bytes (fix_id (j_id m)) ids <= 1)) ->
+  let t := mk_task s u ids m in
+  t_pre t = Some (we_code e, we_msg e) /\ t_st t = TSkip /\ t_hasctx t = false /\
+  (fix_id (j_id m) <> [] ->
+     response_of t = Some {| r_id := fix_id (j_id m); r_body := BErr (we_code e) (we_msg e) |}) /\
+  (fix_id (j_id m) = [] -> we_code e = ParseError \/ we_code e = InvalidRequest ->
+     response_of t = Some {| r_id := null_bytes; r_body := BErr (we_code e) (we_msg e) |}) /\
+  (fix_id (j_id m) = [] -> we_code e <> ParseError -> we_code e <> InvalidRequest -> response_of t = None).
+Proof. exact SrvC02.c02_invalid_member_response. Qed.
+Print Assumptions c02_invalid_member_response.
+
+(* push-enabled server: a reply-shaped member that matches no outstanding callback is dropped, not answered *)
+Theorem c02_stray_reply_dropped : forall s m r keep acc,
+  is_req_or_notif m = false -> assoc (fix_id (j_id m)) (calls s) = None ->
+  c_push s = true -> j_method m = [] -> has_reply_fields m = true ->
+  filter_batch (m :: r) s keep acc = filter_batch r s keep acc.
+Proof. exact SrvC02.c02_stray_reply_dropped. Qed.
+Print Assumptions c02_stray_reply_dropped.
+
+Theorem c02_stray_reply_kept_without_push : forall s m r keep acc,
+  is_req_or_notif m = false -> assoc (fix_id (j_id m)) (calls s) = None -> c_push s = false ->
+  filter_batch (m :: r) s keep acc = filter_batch r s (m :: keep) acc.
+Proof. exact SrvC02.c02_stray_reply_kept_without_push. Qed.
+Print Assumptions c02_stray_reply_kept_without_push.
+
+(* whatever the record, the server keeps serving: still running, reader back at Recv, no crash *)
+Theorem c02_keeps_serving : forall s i s' os f,
+  running s = true -> f = FMsg i \/ f = FMsgEOF i -> read_cs f s = (s', os) ->
+  running s' = true /\ rd s' = RIdle /\
+  (crash s' = crash s \/ (work_closed s = true /\ crash s' = Some CrSendOnClosedWork)).
+Proof. exact SrvC02.c02_keeps_serving. Qed.
+Print Assumptions c02_keeps_serving.
+End Live.
